@@ -132,12 +132,61 @@ fn canon(name: &str, pairs: &[(String, String)]) -> String {
     format!("{}\u{2}{}", name, v.join("\u{3}"))
 }
 
+// ---- storage-aliased keys: names, label keys and label values that are SLICES of one leaked static buffer.
+// Families (class id -> contents; the class is the CONTENTS, the storage relation is the variant):
+//   200000+i  name = BUF[..1+i]                      prefix family: same start, different lengths
+//   210000+i  name = "al", one label (BUF[..1+i%5], BUF[..1+i/5])   prefixes as label key / value
+//   220000+i  name = BUF[i+1..i+9]                   overlapping windows, different starts
+// Variants: 0 borrowed slices of buffer A; 1 owned copies; 2 Arc name + owned labels; 3 borrowed slices of
+// buffer B (same contents, different addresses: twins); 4 clone of 0; 5 owned name + borrowed labels.
+const ALIAS0: u32 = 200_000;
+const ALIAS_NA: u32 = 3000;
+const ALIAS_NL: u32 = 2000;
+const ALIAS_NO: u32 = 1000;
+fn alias_bufs() -> &'static (&'static str, &'static str) {
+    static B: OnceLock<(&'static str, &'static str)> = OnceLock::new();
+    B.get_or_init(|| {
+        let mut x: u64 = 0x2545F4914F6CDD1D;
+        let mut sbuf = String::new();
+        while sbuf.len() < (ALIAS_NA + ALIAS_NO + 64) as usize {
+            x ^= x << 13; x ^= x >> 7; x ^= x << 17;
+            let ch = b"abcdefghijklmnopqrstuvwxyz0123456789._"[(x % 38) as usize] as char;
+            sbuf.push(ch);
+        }
+        let a: &'static str = Box::leak(sbuf.clone().into_boxed_str());
+        let b: &'static str = Box::leak(sbuf.into_boxed_str());
+        (a, b)
+    })
+}
+fn alias_parts(c: u32, twin: bool) -> (&'static str, Vec<(&'static str, &'static str)>) {
+    let (a, b) = *alias_bufs();
+    let buf = if twin { b } else { a };
+    let i = (c - ALIAS0) as usize;
+    if i < 10_000 { (&buf[..1 + i], vec![]) }
+    else if i < 20_000 { let j = i - 10_000; ("al", vec![(&buf[..1 + j % 5], &buf[..1 + j / 5])]) }
+    else { let j = i - 20_000; (&buf[j + 1..j + 9], vec![]) }
+}
+fn alias_info(c: u32, twin: bool) -> ClassInfo {
+    let (name, ls) = alias_parts(c, twin);
+    let v: Vec<Label> = ls.iter().map(|(k, v)| Label::from_static_parts(k, v)).collect();
+    let labels: &'static [Label] = Box::leak(v.into_boxed_slice());
+    ClassInfo { name, labels, rev: labels, pairs: ls.iter().map(|(k, v)| (k.to_string(), v.to_string())).collect() }
+}
+
 fn class_info(c: u32) -> &'static ClassInfo {
     let mut g = pools().lock().unwrap();
     if let Some(ci) = g.0.get(&c) {
         return ci;
     }
-    // classes >= 100000 are "fresh" classes for the key-race engine: a name of their own, label set by c % 4
+    if c >= ALIAS0 && c < 10_000_000 {
+        let ci: &'static ClassInfo = Box::leak(Box::new(alias_info(c, false)));
+        let tw: &'static ClassInfo = Box::leak(Box::new(alias_info(c, true)));
+        g.1.insert(canon(ci.name, &ci.pairs), c);
+        g.0.insert(c, ci);
+        g.0.insert(c + 10_000_000, tw);
+        return ci;
+    }
+    // classes >= 100000 outside the aliased families (the key-race engine uses 20000000+) are "fresh" classes: a name of their own, label set by c % 4
     let (name, pairs): (&'static str, Vec<(String, String)>) = if c >= 100_000 {
         (Box::leak(format!("s{}", c).into_boxed_str()), label_pairs([0u32, 2, 7, 3][(c % 4) as usize]))
     } else {
@@ -173,6 +222,17 @@ fn class_of(key: &Key) -> u32 {
 fn build_key(c: u32, v: u32) -> Key {
     let ci = class_info(c);
     let owned = |ps: &[(String, String)]| -> Vec<Label> { ps.iter().map(|(a, b)| Label::new(a.clone(), b.clone())).collect() };
+    if c >= ALIAS0 && c < 10_000_000 {
+        let stat = |ci: &'static ClassInfo| if ci.labels.is_empty() { Key::from_static_name(ci.name) } else { Key::from_static_parts(ci.name, ci.labels) };
+        return match v % 6 {
+            0 => stat(ci),
+            1 => Key::from_parts(ci.name.to_string(), owned(&ci.pairs)),
+            2 => { let a: Arc<str> = Arc::from(ci.name); Key::from_parts(SharedString::from(a), owned(&ci.pairs)) }
+            3 => { let tw = *pools().lock().unwrap().0.get(&(c + 10_000_000)).unwrap(); stat(tw) }
+            4 => stat(ci).clone(),
+            _ => Key::from_static_labels(ci.name.to_string(), ci.labels),
+        };
+    }
     match v % 6 {
         0 => Key::from_parts(ci.name.to_string(), owned(&ci.pairs)),
         1 => Key::from_static_parts(ci.name, ci.labels),
@@ -384,6 +444,121 @@ fn table(n: u32, nv: u32) -> String {
         }
     }
     format!("TABLE {} ; {} ; {}", reg.__verif_shard_count(), v.join(" "), eqbad.join(" "))
+}
+
+fn alias_classes() -> Vec<u32> {
+    (0..ALIAS_NA).map(|i| ALIAS0 + i).chain((0..ALIAS_NL).map(|i| ALIAS0 + 10_000 + i)).chain((0..ALIAS_NO).map(|i| ALIAS0 + 20_000 + i)).collect()
+}
+
+// hashes of the aliased key families (variant 0); sanity of the POOL by contents only (never by ==, which is
+// what is under test): two classes with the same contents, or a variant whose contents differ, are generator bugs
+fn atable() -> String {
+    let mut v = Vec::new();
+    let mut bad = Vec::new();
+    let mut seen: HashMap<String, u32> = HashMap::new();
+    for c in alias_classes() {
+        let ci = class_info(c);
+        if let Some(d) = seen.insert(canon(ci.name, &ci.pairs), c) { bad.push(format!("{}={}", c, d)); }
+        for x in 0..6 { if class_of(&build_key(c, x)) != c { bad.push(format!("{}:{}", c, x)); } }
+        v.push(format!("{}:{}", c, build_key(c, 0).get_hash()));
+    }
+    format!("ATABLE ; {} ; {}", v.join(" "), bad.join(" "))
+}
+
+// Bulk history over thousands of storage-aliased keys, judged by a reference single map keyed by CONTENTS
+// (kind, class): get_or_create returns the class's own storage (a new one iff the class is absent), get / delete
+// are truthful, visit / handles list each live class exactly once with its own storage, nothing is shared
+// between classes or kinds. Sequential; the interesting part is which keys meet in one shard with one hashbrown
+// tag (top 7 hash bits) while both are live: those pairs are counted.
+fn alias_bulk(seed: u64) -> String {
+    metrics::__verif::set_callback(None);
+    let slog: Arc<Mutex<Vec<(char, u32, u64)>>> = Arc::new(Mutex::new(Vec::new()));
+    let reg: Registry<Key, Dbl> = Registry::new(Dbl { next: AtomicU64::new(0), log: slog.clone() });
+    let mask = (reg.__verif_shard_count() - 1) as u64;
+    let mut x: u64 = seed.wrapping_mul(0x9E3779B97F4A7C15) | 1;
+    let mut rnd = move || { x ^= x << 13; x ^= x >> 7; x ^= x << 17; x };
+    let mut errs: Vec<String> = Vec::new();
+    let mut nfail = 0u64;
+    let classes = alias_classes();
+    let mut live: HashMap<(char, u32), u64> = HashMap::new();      // the reference map
+    let mut modes = [0u64; 6];
+    let mut ops = 0u64;
+    // which variant builds the key of an operation: mostly borrowed slices of the one buffer
+    let pickv = |r: u64| -> u32 { [0u32, 0, 0, 4, 3, 1, 2, 5][(r % 8) as usize] };
+    let kinds = ['c', 'g', 'h'];
+    // phase A: every class created once per kind-of-its-family through an aliasing variant, in random order
+    let mut order: Vec<u32> = classes.clone();
+    for i in (1..order.len()).rev() { let j = (rnd() % (i as u64 + 1)) as usize; order.swap(i, j); }
+    let kind_of = |c: u32| kinds[((c - ALIAS0) / 10_000) as usize % 3];
+    for &c in &order {
+        let kind = kind_of(c);
+        let v = pickv(rnd()); modes[v as usize] += 1;
+        let h = kr_goc(&reg, kind, &build_key(c, v)); ops += 1;
+        match live.get(&(kind, c)) {
+            Some(id) => if *id != h.0.id { nfail += 1; if errs.len() < 4 { errs.push(format!("create {}{}: got storage {} but the class already has {}", kind, c, h.0.id, id)); } },
+            None => {
+                if let Some(((k2, c2), _)) = live.iter().find(|(_, id)| **id == h.0.id) {
+                    nfail += 1; if errs.len() < 4 { errs.push(format!("create of absent {}{} (variant {}) returned storage {} which belongs to the different key {}{}", kind, c, v, h.0.id, k2, c2)); }
+                }
+                live.insert((kind, c), h.0.id);
+            }
+        }
+    }
+    // phase B: random gets / re-creates / deletes / cross-kind probes through all variants
+    let nb = classes.len() * 2;
+    for _ in 0..nb {
+        let c = classes[(rnd() % classes.len() as u64) as usize];
+        let kind = if rnd() % 8 == 0 { kinds[(rnd() % 3) as usize] } else { kind_of(c) };
+        let v = pickv(rnd()); modes[v as usize] += 1;
+        let key = build_key(c, v);
+        ops += 1;
+        match rnd() % 8 {
+            0..=3 => {
+                let got = kr_get(&reg, kind, &key).map(|h| h.0.id);
+                let want = live.get(&(kind, c)).copied();
+                if got != want { nfail += 1; if errs.len() < 4 { errs.push(format!("get {}{} (variant {}) returned {:?}, the class's storage is {:?}", kind, c, v, got, want)); } }
+            }
+            4..=5 => {
+                let h = kr_goc(&reg, kind, &key);
+                match live.get(&(kind, c)) {
+                    Some(id) => if *id != h.0.id { nfail += 1; if errs.len() < 4 { errs.push(format!("get_or_create {}{} (variant {}) returned {} not the class's storage {}", kind, c, v, h.0.id, id)); } },
+                    None => {
+                        if live.values().any(|id| *id == h.0.id) { nfail += 1; if errs.len() < 4 { errs.push(format!("get_or_create of absent {}{} (variant {}) returned another key's storage {}", kind, c, v, h.0.id)); } }
+                        live.insert((kind, c), h.0.id);
+                    }
+                }
+            }
+            _ => {
+                let b = kr_del(&reg, kind, &key);
+                let want = live.remove(&(kind, c)).is_some();
+                if b != want { nfail += 1; if errs.len() < 4 { errs.push(format!("delete {}{} (variant {}) returned {} but the class was {}", kind, c, v, b, if want { "present" } else { "absent" })); } }
+            }
+        }
+    }
+    // quiescent listing: exactly the reference map, each class once
+    for kind in kinds {
+        let mut v = visit(&reg, kind); v.sort();
+        let mut want: Vec<(u32, u64)> = live.iter().filter(|((k, _), _)| *k == kind).map(|((_, c), id)| (*c, *id)).collect(); want.sort();
+        if v != want { nfail += 1; if errs.len() < 4 { errs.push(format!("visit of {} lists {} entries, the reference map {} (first difference: {:?})", kind, v.len(), want.len(), v.iter().zip(want.iter()).find(|(a, b)| a != b))); } }
+        let mut hl: Vec<(u32, u64)> = match kind {
+            'c' => reg.get_counter_handles().iter().map(|(k, h)| (class_of(k), h.0.id)).collect(),
+            'g' => reg.get_gauge_handles().iter().map(|(k, h)| (class_of(k), h.0.id)).collect(),
+            _ => reg.get_histogram_handles().iter().map(|(k, h)| (class_of(k), h.0.id)).collect(),
+        };
+        hl.sort();
+        if hl != want { nfail += 1; if errs.len() < 4 { errs.push(format!("handles listing of {} has {} entries, the reference map {}", kind, hl.len(), want.len())); } }
+    }
+    // how many same-start (prefix) pairs met in one shard with one tag (both created in the same kind)
+    let mut buckets: HashMap<(char, u64, u64, u32), u64> = HashMap::new();   // (kind, shard, tag, family)
+    for &c in &classes {
+        let h = build_key(c, 0).get_hash();
+        *buckets.entry((kind_of(c), h & mask, h >> 57, (c - ALIAS0) / 10_000)).or_insert(0) += 1;
+    }
+    let mut pairs = [0u64; 3];
+    for ((_, _, _, fam), n) in buckets.iter() { pairs[*fam as usize] += n * (n - 1) / 2; }
+    format!("ALIAS ok={} failures={} ops={} keys={} (prefix names {}, prefix labels {}, overlapping windows {}) built: borrowed {} clone-of-borrowed {} twin-buffer {} owned {} arc {} owned-name+borrowed-labels {} ; same-shard same-tag pairs: prefix names {} prefix labels {} windows {} ; {}",
+            if nfail == 0 { 1 } else { 0 }, nfail, ops, classes.len(), ALIAS_NA, ALIAS_NL, ALIAS_NO,
+            modes[0], modes[4], modes[3], modes[1], modes[2], modes[5], pairs[0], pairs[1], pairs[2], errs.join(" | "))
 }
 
 // Free-running stress (no scheduler: real threads race on the shard locks).
@@ -685,7 +860,7 @@ fn keyrace(rounds: usize, budget_ms: u64, seed: u64) -> String {
     let mut err = { let (errors, nerr) = (errors.clone(), nerr.clone()); move |m: String| { nerr.fetch_add(1, SeqCst); let mut e = errors.lock().unwrap(); if e.len() < 4 { e.push(m); } } };
     let slog: Arc<Mutex<Vec<(char, u32, u64)>>> = Arc::new(Mutex::new(Vec::new()));
     let reg = Arc::new(Registry::new(Dbl { next: AtomicU64::new(0), log: slog.clone() }));
-    let mut next_class = 100_000u32 + ((seed % 1000) as u32) * 4;
+    let mut next_class = 20_000_000u32 + ((seed % 1000) as u32) * 4;
 
     // part 1: DIRECTED schedules with the key's own sites (301-306) taking part: thread 0 makes the first use
     // of a fresh const key through the registry, thread 1 clones it twice; every thread-index sequence of
@@ -728,7 +903,8 @@ fn keyrace(rounds: usize, budget_ms: u64, seed: u64) -> String {
         (key, c, ['c', 'g', 'h'][(r / 2) % 3], ctor)
     }).collect());
     let go = Arc::new(std::sync::atomic::AtomicUsize::new(0));
-    let done = Arc::new(std::sync::atomic::AtomicUsize::new(0));
+    // per-worker count of completed rounds (a worker that ended WITHOUT completing the current round has died)
+    let done: Arc<Vec<std::sync::atomic::AtomicUsize>> = Arc::new((0..4).map(|_| std::sync::atomic::AtomicUsize::new(0)).collect());
     let stop = Arc::new(std::sync::atomic::AtomicBool::new(false));
     let rd = Arc::new(Mutex::new(RoundData::default()));
     let mut hs = Vec::new();
@@ -769,7 +945,7 @@ fn keyrace(rounds: usize, budget_ms: u64, seed: u64) -> String {
                         rd.lock().unwrap().racy.push(("an equal key built from owned parts".to_string(), h));
                     }
                 }
-                done.fetch_add(1, SeqCst);
+                done[w].fetch_add(1, SeqCst);
             }
         }));
     }
@@ -781,11 +957,11 @@ fn keyrace(rounds: usize, budget_ms: u64, seed: u64) -> String {
         go.store(r + 1, SeqCst);
         let mut spins = 0u32;
         let mut dead = false;
-        while done.load(SeqCst) < NW * (r + 1) {
+        while done.iter().any(|d| d.load(SeqCst) < r + 1) {
             spins += 1;
             if spins % 4096 == 0 {
                 std::thread::yield_now();
-                if hs.iter().any(|h| h.is_finished()) && done.load(SeqCst) < NW * (r + 1) { dead = true; break; }
+                if hs.iter().enumerate().any(|(w, h)| h.is_finished() && done[w].load(SeqCst) < r + 1) { dead = true; break; }
             } else { std::hint::spin_loop(); }
         }
         if dead { err(format!("free-running round {}: a worker thread ended (panicked) inside the round", r)); break; }
@@ -831,6 +1007,13 @@ fn main() {
         if let Some(r) = line.trim().strip_prefix("STRESS") {
             let a: Vec<u64> = r.split_whitespace().map(|x| x.parse().unwrap()).collect();
             writeln!(w, "{}", stress(a[0] as usize, a[1] as usize, a[2])).unwrap();
+            continue;
+        }
+        if line.trim() == "ATABLE" { writeln!(w, "{}", atable()).unwrap(); continue; }
+        if let Some(r) = line.trim().strip_prefix("ALIAS") {
+            let a: Vec<u64> = r.split_whitespace().map(|x| x.parse().unwrap()).collect();
+            let r = std::panic::catch_unwind(move || alias_bulk(a[0]));
+            writeln!(w, "{}", r.unwrap_or_else(|_| "ALIAS ok=0 failures=1 ; the engine panicked".to_string())).unwrap();
             continue;
         }
         if let Some(r) = line.trim().strip_prefix("KEYRACE") {
